@@ -28,6 +28,7 @@ class Extract:
         self.tracing = False
         self.loop_index = 0
         self.stamps = []            # names (fields / locals) of StabilisationNum type: rule R4s
+        self.tail = None              # loopbody: expression appended as the value of the emitted function (e.g. `Ok(())`)
         self.loop_containing = None   # regex: the innermost loop whose header+body matches (instead of an ordinal)
         self.panics = 'obligation'
         self.cfg = 'debug'
@@ -169,6 +170,8 @@ def parse(template_text):
                             ex.stamps = [x.strip() for x in v.split(',') if x.strip()]
                         elif k == 'loop_index':
                             ex.loop_index = int(v)
+                        elif k == 'tail':
+                            ex.tail = v.strip('`')
                         elif k == 'loop_containing':
                             ex.loop_containing = v.strip('`')
                         elif k == 'cut_after':
@@ -483,10 +486,10 @@ def expand_extract(ex, canary=False):
             if mo_c.group(1) == 'break':
                 raise AnchorLost('%s: `break` in the extracted loop body' % ex.id)
             out.append(inner[last:mo_c.start()])
-            out.append('return')
+            out.append('return %s' % ex.tail if ex.tail else 'return')
             last = mo_c.end()
         out.append(inner[last:])
-        body = '{ let %s = vx_item; %s }' % (pat, ''.join(out))
+        body = '{ let %s = vx_item; %s %s }' % (pat, ''.join(out), ex.tail or '')
         orig = body[kw:lbc + 1]
     if ex.kind == 'fn' and ex.as_sig:
         # R7p: the contract is written over the parameter names of the `as:` signature; if the real signature names a
